@@ -56,6 +56,7 @@ type pg struct {
 	classes  []string
 	nEdges   int
 	depth    int
+	trailing float64 // extra probability of a trailing comment after a closing brace
 	rootD    int // depth of the current board's top-level statements
 	edges    []string // declared "src arrow dst" at depth 0, for index references
 }
@@ -65,7 +66,9 @@ func Program(r *R, o Opts) string {
 	p := newPG(r, o)
 	n := r.Range(o.MinStmts, o.MaxStmts)
 	if r.P(o.Boards * 0.2) {
-		// a file that consists of board declarations only
+		// a file that consists of board declarations only (often with trailing comments
+		// after the closing braces)
+		p.trailing = 0.5
 		for p.sb.Len() == 0 {
 			p.boards(0)
 		}
@@ -540,7 +543,7 @@ func (p *pg) stmt(d int, scope string, allowMap bool) {
 func (p *pg) closeBrace(d int) {
 	p.ind(d)
 	p.sb.WriteString("}")
-	if p.r.P(p.o.Comments * 0.4) {
+	if p.r.P(p.o.Comments*0.4) || p.r.P(p.trailing) {
 		p.sb.WriteString(" # " + strings.ReplaceAll(p.label(), "\n", " "))
 	}
 	p.sb.WriteString("\n")
